@@ -427,7 +427,7 @@ def _rand_decision(rnd, kind, nitems, k):
 
 def gen_cfg_cases(rnd, tier):
     maxcross = 4 if tier == "quick" else 6
-    reps = 12 if tier == "quick" else 110
+    reps = 12 if tier == "quick" else 90
     for kind in ("subset", "integer", "binary", "real"):
         for ncross in range(1, maxcross + 1):
             for nparent in (1, 2, 3, 4):
@@ -480,8 +480,8 @@ N_CFG = "ring[sample_xconfig of subset/integer/binary/real configurations]"
 
 
 @unit(P, N_CFG, "R", bounded=True,
-      note="bounded: ncross<=4 (thorough 6), nparent in 1..4, <=10 candidates, counts<=3, seeded RandomState/Generator/global "
-           "streams, <=2 re-samplings; quick 5 / thorough 28 random decisions per (class, ncross, nparent)")
+      note="bounded: ncross<=4 (thorough 6), nparent in 1..4, <=10 candidates (or 300), counts<=3, seeded RandomState/Generator/global "
+           "streams, <=2 re-samplings; one case in 16 with 300 candidates (indices > 255); quick 12 / thorough 90 random decisions per (class, ncross, nparent)")
 def u_ring_cfg(ctx):
     ctx.rule = ("for every configuration class x ncross x nparent: random decisions (exact-fit, under- and over-full, single "
                 "member, ties, zeros, int32/bool dtypes), scalar and per-cross nmating/nprogeny, three generator kinds; "
@@ -497,8 +497,13 @@ def u_ring_cfg(ctx):
 # E. contribution vectors at scripted generator edges (first uniform draw 0 or ~1)
 # --------------------------------------------------------------------------
 def gen_sus_edge_cases(rnd, tier):
-    reps = 2 if tier == "quick" else 8
+    reps = 3 if tier == "quick" else 20
     pats = [[0.0], [1.0 - 2.0 ** -53], [0.5], [2.0 ** -60]]
+    # fixed members of the two classes seen on the unchanged library (15 pointers requested)
+    for decn in ([0.1, 1.0], [1.0, 0.1, 1.0, 0.1], [1.0, 1e-12]):
+        for pat in ([0.0], [2.0 ** -60]):
+            yield dict(kind="real", ncross=5, nparent=3, ntaxa=len(decn), decn=decn, dtype="float64",
+                       nmating=1, nprogeny=1, rng=["script", 1, pat], resample=0)
     for pat in pats:
         for ncross in (1, 2, 3, 5, 6):
             for nparent in (1, 2, 3, 4):
@@ -510,11 +515,13 @@ def gen_sus_edge_cases(rnd, tier):
 
 
 def _sus_edge_cls(case, clause, msg):
+    """class of failing INPUT: the scripted first draw puts the first SUS pointer on an end of [0, pointer distance]"""
     first = case["rng"][2][0]
-    if clause == "exception" and "reshape" in msg:
-        return "real-sus-pointer-count-at-offset-%s" % ("zero" if first == 0.0 else "top" if first > 0.9 else "interior")
-    if clause == "exception" and "IndexError" in msg:
-        return "real-sus-pointer-beyond-cumsum"
+    if clause == "exception" and ("cannot reshape" in msg or "IndexError" in msg):
+        if first < 1e-9:
+            return "real-sus-first-pointer-at-zero"          # one pointer too many -> reshape fails
+        if first > 1.0 - 1e-9:
+            return "real-sus-first-pointer-at-pointer-distance"   # one pointer missing / pointer beyond the cumulative sum
     return "sample-xconfig:real-edge:%s" % clause
 
 
@@ -978,7 +985,7 @@ N_TRUNC = "ring[truncation exactness and equivariance, EBV/GEBV/OHV subset proto
 
 @unit(P, N_TRUNC, "R", bounded=True,
       note="bounded: <=7 candidates (thorough 10), <=6 markers on <=2 chromosomes, <=2 traits, ncross*nparent<=candidates, "
-           "dyadic breeding values with ties (EBV), 4-digit marker effects (GEBV/OHV); quick 70 / thorough 900 random populations")
+           "dyadic breeding values with ties (EBV), 4-digit marker effects (GEBV/OHV); quick 600 / thorough 9000 random populations")
 def u_ring_trunc(ctx):
     ctx.rule = ("random populations; select() of the real protocol with SortingSubsetOptimizationAlgorithm; oracle = best-k "
                 "by an independently computed criterion (weighted breeding value, marker-effect sum, optimal haploid value "
@@ -1230,7 +1237,7 @@ def _flow_case(rnd, fam, enc, nobj, uc_integer_multi=False):
         ndk = []
     ndw = None if ndt == "default" else rnd.choice([1.0, -1.0, 2.5, None])
     return dict(fam=fam, enc=enc, nobj=nobj, n=n, p=p, t=t, nchr=nchr, unique=unique, ncross=ncross, nparent=nparent,
-                nmating=nm, nprogeny=npg, ndt=ndt, ndk=ndk, ndw=ndw, nsamp=rnd.choice([1, 3, 6, 9]),
+                nmating=nm, nprogeny=npg, ndt=ndt, ndk=ndk, ndw=ndw, nsamp=rnd.choice([1, 3, 6, 9, 40]),
                 dseed=rnd.randint(0, 10 ** 6), pseed=rnd.randint(0, 10 ** 6), gseed=rnd.randint(0, 10 ** 6))
 
 
@@ -1260,8 +1267,8 @@ N_FLOW = "ring[select() data flow, 6 protocol families x 4 encodings, ring-side 
 
 
 @unit(P, N_FLOW, "R", bounded=True,
-      note="bounded: 4-6 candidates, <=6 markers, 2 traits, ncross<=4, nparent<=3, fronts from <=9 sampled decisions of the "
-           "real problem; quick 2 / thorough 14 per (family, encoding, nobj)")
+      note="bounded: 4-6 candidates, <=6 markers, 2 traits, ncross<=4, nparent<=3, fronts from <=40 sampled decisions (all subsets when there are fewer) of the "
+           "real problem; quick 7 / thorough 100 per (family, encoding, nobj)")
 def u_ring_flow(ctx):
     ctx.rule = ("for each of EBV/GEBV/OCS/UC/OHV/Random x Subset/Real/Integer/Binary x single/multi objective: the real "
                 "protocol with an optimiser that samples decisions, evaluates the real problem and returns the best / the "
